@@ -121,7 +121,7 @@ Bases == <<
 Alpha == IF AlphaSet = "small"
          THEN <<Pu("#"), Pu("["), Pu("]"), Pu("("), Pu("{"), Pu("}"), Pu(","), Pu(";"), Pu(":"), Pu("="), Pu("<"), Pu(">"),
                 Pu("*"), Pu("_"), Pu("!"), Kw("pub"), Kw("type"), Kw("fn"), Kw("extern"), Kw("mut"), Id("x"), Id("vftable"),
-                In(NumInt(1)), In(NumInt(0 - 1)), In(Num("i64max", 1)), St("s")>>
+                In(NumInt(1)), In(NumInt(0 - 1)), In(Num("i64max", 1)), St("s"), St("")>>
          ELSE <<Pu("#"), Pu("!"), Pu("["), Pu("]"), Pu("("), Pu(")"), Pu("{"), Pu("}"), Pu(","), Pu(";"), Pu(":"), Pu(":j"),
                 Pu("="), Pu("->"), Pu("<"), Pu(">"), Pu("*"), Pu("&"), Pu("_"),
                 Kw("pub"), Kw("type"), Kw("enum"), Kw("extern"), Kw("impl"), Kw("use"), Kw("fn"), Kw("const"), Kw("mut"),
